@@ -676,22 +676,29 @@ impl Database {
             },
             key => {
                 {
-                    if let Some(value) = self.get_value(key.clone()) {
+                    // The state is read and the key removed under one lock: a snapshot that writes the
+                    // key to disk in between would otherwise leave it there after it was dropped from
+                    // memory (and a concurrent write could be overwritten by a stale tombstone)
+                    let mut db = self.map.write().unwrap();
+                    let tombstone = match db.get(&key) {
                         // If deleted before the key is in disk remove direct from memory
-                        if value.state == ValueStatus::New {
-                            let mut db = self.map.write().unwrap();
+                        Some(value) if value.state == ValueStatus::New => None,
+                        Some(value) => Some(Value {
+                            value: String::from("<Empty>"),
+                            version: value.version + 1,
+                            state: ValueStatus::Deleted,
+                            value_disk_addr: value.value_disk_addr,
+                            key_disk_addr: value.key_disk_addr,
+                            opp_id: value.opp_id,
+                        }),
+                        None => None,
+                    };
+                    match tombstone {
+                        Some(tombstone) => {
+                            db.insert(key.clone(), tombstone);
+                        }
+                        None => {
                             db.remove(&key);
-                        } else {
-                            // value.
-                            self.set_value_version(
-                                &key,
-                                &String::from("<Empty>"),
-                                value.version + 1,
-                                ValueStatus::Deleted,
-                                value.value_disk_addr,
-                                value.key_disk_addr,
-                                value.opp_id,
-                            );
                         }
                     }
                 } // Release the lock
